@@ -3,7 +3,8 @@ the cache equal the answers that were stored.
 
 The library is driven through its public entry points (Service(...).<method>) against k <= 4 *fake providers*
 (plain Python classes attached to `bitcoinlib.services`, definitions written to the private providers.json), a
-fake clock (the names `time` / `datetime` inside bitcoinlib.services.services) and a private SQLite cache file.
+fake clock (the names `time` / `datetime` inside bitcoinlib.services.services) and a private SQLite cache (a named
+shared in-memory database per case, or a file in the private data dir that is wiped per case).
 Each provider follows a scripted behaviour per (method, call number): ok / empty-but-legitimate / malformed
 answers, `False`, ClientError, a generic exception, a requests time-out, AttributeError, method missing.
 
@@ -36,7 +37,7 @@ TECHNIQUE = ('exhaustive enumeration of provider fault plans (behaviour per prov
 RULE = ('a case is a fault plan: network, k<=4 fake providers with priorities (ties included), per provider and '
         'method a scripted list of behaviours {ok, empty, malformed, false, client_error, generic, timeout, attr, '
         'nomethod} indexed by call number, (min_providers, max_providers) in {(1,1),(1,2),(2,2)}, max_errors in '
-        '{1,2,4}, cache on/off, a seed for the library RNG (tie-breaking) and a sequence of operations (query with '
+        '{1,2,4}, cache on/off, ignore_priority, a seed for the library RNG (tie-breaking) and a sequence of operations (query with '
         'arguments, clock tick, outage on/off = every provider raises, reopen = new Service on the same cache). '
         'The constructor is evaluated as a blockcount query. Enumerated part (per tier): every behaviour vector over '
         'the tier alphabet for k<=3 (thorough: k<=4), every weak priority order, max_errors, provider settings and '
@@ -61,6 +62,8 @@ ASSUMPTIONS = [
     'and partly from a provider) is checked only on a static chain on which all answering providers agree: the '
     'result must be a gap-free, duplicate-free run of the true history whose elements are provider objects or '
     'faithful rebuilds',
+    'the cache database is SQLite (shared in-memory database or a file in the private data dir); other back-ends are '
+    'not exercised',
     'library RNG (random) is re-seeded from the case; the model accepts every priority-compatible order instead of '
     'predicting the tie-break',
 ]
@@ -735,6 +738,11 @@ class _Run(object):
     def behs(self, m):
         return [_ST.peek(i, m) for i in range(self.case['k'])]
 
+    def prio(self):
+        """priorities the contract is evaluated with: ignore_priority=True makes every order acceptable"""
+        c = self.case
+        return [1] * c['k'] if c.get('ignp') else c['prio']
+
     # ---- operations ---------------------------------------------------------------------------------
     def open(self):
         c = self.case
@@ -747,7 +755,7 @@ class _Run(object):
         def mk():
             box['s'] = self.L['Service'](network=c['net'], min_providers=c['minp'], max_providers=c['maxp'],
                                          cache_uri=_cache_uri(c, self.keep),
-                                         max_errors=c['max_errors'])
+                                         max_errors=c['max_errors'], ignore_priority=bool(c.get('ignp')))
             return box['s']._blockcount
         obs = self.observe(mk)
         self.srv = box.get('s')
@@ -830,7 +838,7 @@ class _Run(object):
                 return
             self.disc('blockcount.fail-without-asking', '%s failed (%s) without asking any provider' % (what, obs[1]))
             return
-        if first_fails(c['prio'], snapshot):
+        if first_fails(self.prio(), snapshot):
             self.nt = True
             ctx.klass('first-fails.blockcount')
         limits = [c['max_errors']]
@@ -838,7 +846,7 @@ class _Run(object):
             limits.append(4)
         A, fail_ok = set(), False
         for lim in limits:
-            a_, f_ = contract(c['prio'], snapshot, lim)
+            a_, f_ = contract(self.prio(), snapshot, lim)
             A |= a_
             fail_ok = fail_ok or f_
         first = rounds[0]['entries']
@@ -925,7 +933,7 @@ class _Run(object):
         if any(r['m'] != 'blockcount' for r in side):
             raise HarnessError('%s called unexpected provider methods %r' % (m, [r['m'] for r in side]))
         side_unanswered = any(not any(e['beh'] in ANSWER for e in r['entries']) for r in side)
-        side_limit = any(contract(c['prio'], self._round_behs(r), c['max_errors'])[1] for r in side)
+        side_limit = any(contract(self.prio(), self._round_behs(r), c['max_errors'])[1] for r in side)
         side_mal = any(e['beh'] == 'malformed' for r in side for e in r['entries'])
         side_fail = side_unanswered or side_limit
         if side:
@@ -942,10 +950,10 @@ class _Run(object):
         if not main:
             self.judge_cached(m, a, obs, what, side_fail, side_mal)
             return
-        if first_fails(c['prio'], snapshot):
+        if first_fails(self.prio(), snapshot):
             self.nt = True
             ctx.klass('first-fails.%s' % m)
-        A, fail_ok = contract(c['prio'], snapshot, c['max_errors'])
+        A, fail_ok = contract(self.prio(), snapshot, c['max_errors'])
         cands = [e for e in main[0]['entries'] if e['i'] in A and e['beh'] in ANSWER]
         mal = any(snapshot[i] == 'malformed' for i in A)
         desc = 'behaviours %r prio %r max_errors %d providers %d-%d' % (snapshot, c['prio'], c['max_errors'],
@@ -956,8 +964,7 @@ class _Run(object):
         if obs[0] == 'fail':
             zero_fee_no_default = m == 'estimatefee' and any(e['val'] == 0 for e in cands) and \
                 not _fee_limits(c['net'])[2]
-            fee_no_default = m == 'estimatefee' and False
-            if fail_ok or side_fail or mal or side_mal or zero_fee_no_default or fee_no_default:
+            if fail_ok or side_fail or mal or side_mal or zero_fee_no_default:
                 ctx.klass('outcome.fail')
                 return
             self.disc('fail-though-provider-answers.%s' % m, '%s failed (%s) although provider(s) %s answer within '
@@ -999,7 +1006,7 @@ class _Run(object):
             self.disc('fabricated.%s' % m, '%s returned %s although no provider answered within the error limit '
                       '(a failure - ServiceError or False - is required); %s' % (what, _short(v), desc), kf=kf)
             return
-        self.disc('wrong-answer.%s' % m, '%s returned %r; acceptable: answer of provider(s) %s = %r; %s' %
+        self.disc('wrong-answer.%s' % m, '%s returned %s; acceptable: answer of provider(s) %s = %s; %s' %
                   (what, _short(v), sorted(A), [_short(e['val']) for e in cands], desc))
 
     def _round_behs(self, r):
@@ -1415,6 +1422,10 @@ def enum_plans(ctx):
     for m in METHODS:
         for k in range(1, kmax + 1):
             orders = weak_orders(k)
+            if k == 4:
+                # behaviour vectors are enumerated in full, so priority vectors are needed only up to relabelling
+                # of the providers: the non-increasing ones
+                orders = [o for o in orders if all(o[j] >= o[j + 1] for j in range(k - 1))]
             for behs in itertools.product(alpha, repeat=k):
                 for prio in orders:
                     for (minp, maxp) in SETTINGS:
@@ -1433,6 +1444,89 @@ def enum_plans(ctx):
                                         'minp': minp, 'maxp': maxp, 'max_errors': lim, 'cache': False, 'rseed': idx,
                                         'salt': (idx // 9) % 5,
                                         'beh': beh, 'ops': ops}
+
+
+def cache_scenarios(ctx):
+    """Deterministic cache scenarios (fill, let the fake clock pass an expiry boundary / take the providers down /
+    reopen, read back through the same or a related method), split over the shards."""
+    out = []
+
+    def q(m, **a):
+        return {'op': 'q', 'm': m, 'a': a}
+
+    def mid(dt, outage, reopen):
+        ops = []
+        if dt:
+            ops.append({'op': 'tick', 'dt': dt})
+        if reopen:
+            ops.append({'op': 'reopen'})
+        if outage:
+            ops.append({'op': 'outage', 'on': True})
+        return ops
+    tf = (False, True)
+    for blocks in (1, 3, 25):
+        for dt in (599, 600, 601):
+            for second in (blocks, {1: 2, 3: 5, 25: 6}[blocks], {1: 3, 3: 25, 25: 1}[blocks]):
+                for outage in tf:
+                    for reopen in tf:
+                        out.append((['estimatefee'], [q('estimatefee', blocks=blocks)] + mid(dt, outage, reopen) +
+                                    [q('estimatefee', blocks=second)]))
+    for dt in (3, 4, 59, 60, 61):
+        for outage in tf:
+            for reopen in tf:
+                for cache in (True, 'file', False):
+                    out.append((['blockcount'], mid(dt, outage, reopen) + [q('blockcount')], cache))
+    for tx in range(4):
+        for follow in (q('gettransaction', tx=tx), q('getrawtransaction', tx=tx), q('isspent', tx=min(tx, 2), n=0),
+                       q('isspent', tx=min(tx, 2), n=1)):
+            for outage in tf:
+                for reopen in tf:
+                    out.append((['gettransaction'], [q('gettransaction', tx=tx)] + mid(0, outage, reopen) + [follow]))
+    for addr in (0, 1):
+        for limit in (20, 2):
+            first = q('gettransactions', addr=addr, after=-1, limit=limit)
+            for follow in (dict(first), q('getutxos', addr=addr, after=-1, limit=20), q('getbalance', addrs=[addr]),
+                           q('getbalance', addrs=[0, 1]), q('gettransactions', addr=addr, after=0, limit=20),
+                           q('gettransaction', tx=1), q('isspent', tx=1, n=1)):
+                for outage in tf:
+                    for dt in (0, 61):
+                        out.append((['gettransactions'], [first] + mid(dt, outage, False) + [follow]))
+    for parse in tf:
+        for follow in (q('getblock', parse=parse, byhash=True, limit=10), q('getblock', parse=not parse, limit=10),
+                       q('gettransaction', tx=0)):
+            for outage in tf:
+                for reopen in tf:
+                    out.append((['getblock'], [q('getblock', parse=parse, limit=10)] + mid(0, outage, reopen) +
+                                [follow]))
+    # a transaction fetched on its own, then address-level queries (cache holds a later transaction only)
+    for tx in (1, 2):
+        for addr in (0, 1):
+            for reopen in tf:
+                out.append((['gettransaction'], [q('gettransaction', tx=tx)] + mid(0, False, reopen) +
+                            [q('getutxos', addr=addr, after=-1, limit=20)]))
+                out.append((['gettransaction'], [q('gettransaction', tx=tx)] + mid(0, False, reopen) +
+                            [q('getbalance', addrs=[addr]), q('gettransactions', addr=addr, after=-1, limit=20)]))
+    # fee estimate while every provider is down (documented default), then again when they are back
+    for blocks in (1, 3, 25):
+        for dt in (1, 599, 601):
+            for first_fail in ('client_error', 'false', 'timeout'):
+                out.append((['estimatefee'], [q('estimatefee', blocks=blocks)] + mid(dt, False, dt == 599) +
+                            [q('estimatefee', blocks=blocks)], True,
+                            {'estimatefee': [[first_fail, 'ok'], [first_fail, 'ok']]}))
+    for n, item in enumerate(out):
+        if n % ctx.nshards != ctx.shard:
+            continue
+        methods, ops = item[0], item[1]
+        cache = item[2] if len(item) > 2 else (True if n % 7 else 'file')
+        # two providers; in every third scenario the preferred one fails the first time it is asked
+        beh = {}
+        if len(item) > 3:
+            beh = item[3]
+        elif n % 3 == 0:
+            beh = {m: [['client_error', 'ok'], ['ok']] for m in methods}
+        yield n, {'kind': 'plan', 'net': NETS[n % 3], 'k': 2, 'prio': [2, 1] if n % 2 else [1, 1], 'minp': 1,
+                  'maxp': 1 + (n % 5 == 0), 'max_errors': 4, 'cache': cache, 'rseed': n, 'salt': n % 5, 'beh': beh,
+                  'ops': ops}
 
 
 def plan_strategy(ctx, cached):
@@ -1555,7 +1649,7 @@ def plan_strategy(ctx, cached):
         beh['blockcount'] = [script(bc, beh_bc if 'blockcount' not in used else beh1, 4) for _ in range(k)]
         return {'kind': 'plan', 'net': draw(st.sampled_from(NETS)), 'k': k, 'prio': prio, 'minp': minp, 'maxp': maxp,
                 'max_errors': lim, 'cache': (draw(st.sampled_from([True] * 7 + ['file'])) if cached else False),
-                'rseed': draw(st.integers(0, 2 ** 32 - 1)),
+                'rseed': draw(st.integers(0, 2 ** 32 - 1)), 'ignp': draw(st.sampled_from([False] * 7 + [True])),
                 'salt': draw(st.integers(0, 5)), 'beh': beh, 'ops': ops}
     return plans()
 
@@ -1584,6 +1678,23 @@ PROBE_CASES = [
       'ops': [{'op': 'tick', 'dt': 100}, {'op': 'q', 'm': 'blockcount', 'a': {}}]},
      'Service.blockcount returns its expired in-memory value instead of failing when the providers reach max_errors '
      'before any of them answered'),
+    (F_UTXO_GAP,
+     {'kind': 'plan', 'net': 'bitcoin', 'k': 1, 'prio': [1], 'minp': 1, 'maxp': 1, 'max_errors': 4, 'cache': True,
+      'rseed': 1, 'salt': 0, 'beh': {},
+      'ops': [{'op': 'q', 'm': 'gettransaction', 'a': {'tx': 2}},
+              {'op': 'q', 'm': 'getutxos', 'a': {'addr': 0, 'after': -1, 'limit': 20}}]},
+     'Service.getutxos trusts the cache to hold every earlier output of the address: after gettransaction(tx2) cached '
+     'one later transaction, getutxos returns that cached output plus the provider answer *after* it and silently '
+     'omits the earlier unspent output (partial UTXO list)'),
+    (F_TXS_GAP,
+     {'kind': 'plan', 'net': 'bitcoin', 'k': 1, 'prio': [1], 'minp': 1, 'maxp': 1, 'max_errors': 4, 'cache': True,
+      'rseed': 1, 'salt': 0, 'beh': {},
+      'ops': [{'op': 'q', 'm': 'gettransaction', 'a': {'tx': 1}},
+              {'op': 'q', 'm': 'getbalance', 'a': {'addrs': [0]}},
+              {'op': 'q', 'm': 'gettransactions', 'a': {'addr': 0, 'after': -1, 'limit': 20}}]},
+     'Service.gettransactions trusts the cache to hold the address history from its start: with one transaction '
+     'cached by gettransaction and an address record created by getbalance, it returns the cached transaction plus '
+     'the provider answer after it and omits the earlier transactions (partial history)'),
 ]
 
 
@@ -1614,6 +1725,8 @@ def _execute(ctx, case):
     if len(set(case['prio'])) < case['k']:
         ctx.klass('priority-tie')
     ctx.klass('cache.%s' % ('on' if case['cache'] else 'off'))
+    if case.get('ignp'):
+        ctx.klass('ignore_priority')
     if r.tainted:
         ctx.klass('ended-after-malformed-answer')
     return r
@@ -1636,13 +1749,20 @@ def run(ctx):
     ctx.exhaustive('fault plans k<=%d x %d behaviours x weak priority orders x max_errors{1,2,4} x provider settings '
                    'x 13 methods (cache off)' % (ctx.scale(3, 4), ctx.scale(4, 5)), done)
 
+    # 1b. deterministic cache scenarios around the expiry boundaries ------------------------------------------
+    for n, case in cache_scenarios(ctx):
+        ctx.klass('scenario.' + case['ops'][0].get('m', 'blockcount'))
+        ctx.guard(lambda c: _execute(ctx, c), case)
+    ctx.exhaustive('cache scenarios: fill / expiry boundary, outage, reopen / read back (estimatefee buckets, '
+                   'blockcount, transaction, address history, block)')
+
     # 2. sampled plans with the full behaviour alphabet, operation sequences, cache off -----------------------
     def prop_plain(case):
         for o in case['ops']:
             if o['op'] == 'q':
                 ctx.klass('seq.method.' + o['m'])
         _execute(ctx, case)
-    ctx.run_given('plans', plan_strategy(ctx, False), prop_plain, ctx.scale(500, 12000))
+    ctx.run_given('plans', plan_strategy(ctx, False), prop_plain, ctx.scale(500, 6000))
 
     # 3. stateful sequences against the SQLite cache under the fake clock -------------------------------------
     def prop_cached(case):
@@ -1654,4 +1774,4 @@ def run(ctx):
         r = _execute(ctx, case)
         if r.nt and len(ctx.samples) < 6:
             ctx.sample(case)
-    ctx.run_given('cached', plan_strategy(ctx, True), prop_cached, ctx.scale(170, 3000))
+    ctx.run_given('cached', plan_strategy(ctx, True), prop_cached, ctx.scale(140, 2000))
